@@ -3,6 +3,7 @@ import collections
 import random
 
 import core
+import gen
 import decsuite as ds
 import msggen
 
@@ -18,7 +19,7 @@ def run(ctx, replay_case):
     full = core.run_impl([c.op("S") for c in wf])
     faults, keeps = [], []
     for c, b in zip(wf, full):
-        if not b[-1].startswith("R done") or not ds.widths_ok(b, L):
+        if not ds.usable(ctx, c, b, L, ctx.stats.setdefault("inputs", {})):
             continue
         for f in ds.value_faults(c, b, L, rnd, ctx.tier, limit=6 if ctx.tier == "quick" else None):
             f.meta["full"] = b
@@ -49,7 +50,8 @@ def run(ctx, replay_case):
         before = [ds.strip_pulls(l) for l in fe_lines[:leaf_line]]
         evs = [ds.strip_pulls(l) for l in ds.events_of(b)]
         if c.kind == "value_fault":
-            exp = f"R raised ValueConstraintViolatedError path={c.meta['field']} type={c.meta['prim']} value={c.meta['value']}"
+            exp = (f"R raised ValueConstraintViolatedError path={c.meta['field']} type={c.meta['prim']} value={c.meta['value']} "
+                   f"valid={gen.valid_norm_pinned(L, c.meta['prim'])}")      # the allowed set: the type's declared set (pinned)
             if evs != before or not b[-1].startswith(exp + " "):
                 nbad += 1
                 ctx.violations.append({"kind": "concrete", "signature": f"value:{c.meta['prim']}",
